@@ -399,6 +399,14 @@ Definition run_case (c : case) : val :=
   let p2 := compare false (c_delete c) (o_ws o) (c_trees c) (c_target c) in
   VL [enc_plan p1; enc_ws (o_ws o); enc_errs (o_errs o); enc_bool (o_raised o); enc_plan p2].
 
+(* compare(relink=True): unchanged files are deleted and created again (to change their link type); the second
+   compare is the plain one *)
+Definition run_case_relink (c : case) : val :=
+  let p1 := compare true (c_delete c) (c_ws c) (c_trees c) (c_target c) in
+  let o := apply (c_link c) (c_avail c) (c_order c) (c_order_dc c) p1 (c_ws c) in
+  let p2 := compare false (c_delete c) (o_ws o) (c_trees c) (c_target c) in
+  VL [enc_plan p1; enc_ws (o_ws o); enc_errs (o_errs o); enc_bool (o_raised o); enc_plan p2].
+
 (* a retry history: round 1 with the directory objects [c_trees c], then - the target index being the same
    object, a failed load having left its entry unloaded - round 2 from the resulting workspace with [tr2].
    The cache persists between the rounds: an object that round 1 made executable (chmod through a hard or
